@@ -2,7 +2,8 @@
 
  R1 both irregularity tests (non-monotone re-scaled turnout; |batch margin| > 1) return early, before any estimate is computed; the
     batch return is also taken when the dem or the gop count goes down between two versions (R1.party-decrease, F37: the quotient of two
-    negative differences is back inside [-1, 1]); the monotonicity test looks at the turnout itself (R1.raw-turnout);
+    negative differences is back inside [-1, 1]); the monotonicity test looks at the turnout itself (R1.raw-turnout); every OTHER
+    return that hands back estimates (a shortcut frame with error_type 'none') is dominated by both tests as well (R1.before);
  R2 each early return is a 101-row frame (percents 0..100) of NaN estimates / corrections with its own error_type;
  R3 est(p) = (m_i v_i + b_i (p - v_i)) / p  with i = last observation <= p  (searchsorted(side='right') - 1, clipped to the valid
     range), b_i the margin of the batch that follows observation i; the weights v_i/p and (p - v_i)/p are a convex combination
